@@ -31,6 +31,7 @@ FIXED = [
     ("C12", "F45", "a function validated against one Memory location is no longer trusted at another location", "two cache locations in one process: after Memory(A).cache(f)(x) had validated f (A empty), Memory(B).cache(f)(x) skipped the comparison with the source stored in B (_FUNCTION_HASHES fast path) and returned the value cached there by the previous version of f"),
     ("C17", "F46", "the loky backend is re-created after an abort with the settings of its Parallel object", "with Parallel(n_jobs=2, backend='loky', max_nbytes=10, temp_folder=X, mmap_mode='c') as p: after a call in which a task raised, LokyBackend.abort_everything reconfigured the executor without Parallel._backend_kwargs: the following calls on p ran with the default max_nbytes / temp folder / mmap_mode / context"),
     ("C17", "F47", "a loky executor created for another temp_folder is not reused", "Parallel(n_jobs=2, temp_folder=X) after an earlier loky call with otherwise equal settings reused the running executor, whose temporary-folder manager keeps the folder it was created with: arrays were memmapped under the earlier call's folder (/dev/shm) instead of X, although Parallel._backend_kwargs['temp_folder'] showed X"),
+    ("C16", "F48", "an input failure met by a completion callback after the call was aborted is dropped", "output generator closed (or a task failed) while a completion callback was inside a slow input iterator, on a backend that cannot join its callback threads at abort: the iterator then raised, dispatch_one_batch registered the error tracker in the job queue of the finished call, and the NEXT call on the same Parallel object raised that stale error (ordered modes)"),
     ("C19", "F28", "a contiguous view of a memmap is re-mapped in the workers with the memory order of the view", "transposed / F-ordered contiguous memmap views presented wrong values to process workers"),
 ]
 
